@@ -541,7 +541,8 @@ impl<'a> UserModel<'a> {
             row += 1;
         }
         self.push_diff_list(diff_list);
-        // select the pasted area
+        // select the pasted area (the active cell must be a corner of the selected range)
+        self.set_selected_cell(area.row, area.column)?;
         self.set_selected_range(area.row, area.column, row - 1, last_column)?;
         self.evaluate_if_not_paused();
         Ok(())
